@@ -411,7 +411,10 @@ def transform(T, k, c, F, graph, fn=None):
                     if t < L:
                         seq.append(lefts[t])
             for side, i in seq:
-                B.add_node('%s%d' % (side, i), bipartite=0 if side == 'l' else 1)
+                # the side as an int, or (interleaved layout) as the string a dot
+                # file delivers
+                bip = (0 if side == 'l' else 1) if mode == 1 else ('0' if side == 'l' else '1')
+                B.add_node('%s%d' % (side, i), bipartite=bip)
             for (u, v) in edges:
                 B.add_edge('r%d' % v, 'l%d' % u)
         return S.VariableCompression(F, B, fn if fn is not None else T[:3])
@@ -490,7 +493,13 @@ def check_cli_short(case, R=None):
         for choice in itertools.product(rights, repeat=N):
             edges = [(u + 1, v) for u, nb in enumerate(choice) for v in nb]
             F = scope.mk_cnf(N, [tuple(cl) for cl in case['cls']])
-            H = transform(T, None, None, F, (N, M, edges))
+            try:
+                H = transform(T, None, None, F, (N, M, edges))
+            except Exception as e:
+                # the library refuses a left-regular graph that fits the formula
+                return [{'key': 'cli:%s:shorthand:library-refuses-a-candidate-graph:%s' % (T, type(e).__name__),
+                         'what': 'VariableCompression with the %dx%d graph %r raised %r' % (N, M, edges, e),
+                         'case': dict(case)}]
             tried += 1
             if (H.number_of_variables(), sorted(tuple(sorted(cl)) for cl in H)) == got:
                 if R is not None:
